@@ -102,3 +102,10 @@ package cluster
 //@ callers-only[local-counts-add] (*State).AddLocalEndpoint : (*LoadBalancedManager).AddConn serves C05 C20
 //@ callers-only[local-counts-remove] (*State).RemoveLocalEndpoint : (*LoadBalancedManager).RemoveConn serves C05 C20
 //@ callers-only[subscribe] (*State).OnLocalEndpointUpdate : (*syncer).Sync serves C05 C20
+
+// Status routes (C09): registered only on the group given, so behind its chain.
+//@ contract (*Status).Register
+//@   serves C09
+//@   opt implements github.com/andydunstall/piko/server/status.(Handler).Register
+//@   requires[group] group != nil
+//@   ensures[behind-group] grpAuth[group] && !old(gOpenRoute) ==> !gOpenRoute
